@@ -86,6 +86,7 @@ type FnCtx struct {
 	globalSeen map[string]bool
 	anchorsDone map[string]bool
 	ghosts   map[string]Val
+	inQuant  int
 	callSiteSeen map[string]bool
 	tracked  map[string]bool
 	crType   map[string]types.Type
@@ -429,7 +430,7 @@ func (fc *FnCtx) subRef(st types.Type, i int, ref string) string {
 	fn := mangle("sub." + typeName(st) + "." + f.Name())
 	fc.declareFun(fn, "(Int) Int")
 	term := fmt.Sprintf("(%s %s)", fn, ref)
-	if !fc.subSeen[term] {
+	if !fc.subSeen[term] && fc.inQuant == 0 {
 		if fc.subSeen == nil {
 			fc.subSeen = map[string]bool{}
 		}
